@@ -155,3 +155,25 @@ CHECKS["C07"] = dict(
     assumptions=["both endpoints are in bounds (constructed, then confirmed with satisfiesBounds)",
                  "geodesic proportionality only for R^n, SO2, SO3, SE2, SE3, Time, Torus and compounds/wrappers of them (as stated)"],
 )
+
+CHECKS["C08"] = dict(
+    src="harness/C08_bounds.cpp",
+    cases=dict(quick=300000, thorough=5000000),
+    fuzz=dict(runs=3000000, maxlen=600),
+    rule="Case = generated space (as C06, plus unbounded time) x one of: (36%) enforceBounds on an in-bounds state or a finite far-out state "
+         "(coordinates up to 100 extents or +-1e300 outside, angles up to 50 periods away, exactly +pi, 1 ulp below -pi, up to 1e9; quaternions "
+         "scaled 1e-6..1e6 or zero; discrete +-50) -> in-bounds input unchanged, output satisfiesBounds and finite, second application a no-op; "
+         "(36%) default / subspace / wrapper state sampler: uniform, near and Gaussian around an in-bounds centre with distance or sigma in "
+         "{0, 1e-12..1e-6, moderate, extent, 50..200 x extent} -> finite, satisfiesBounds, untouched components bit-identical; (28%) valid-state "
+         "sampler {uniform, gaussian, obstacle-based, bridge-test, max-clearance, min-clearance} x predicate {all valid, stripes, half space, "
+         "small island} on the first real coordinate x attempts 1..40 x sample / sampleNear -> success implies satisfiesBounds and predicate "
+         "(and clearance >= configured). Non-trivial = far-out input that was out of bounds / a distance in an extreme class / a successful "
+         "valid sample under a predicate rejecting >= 50%. Distinct = consumed byte prefix.",
+    technique="property-based testing of enforceBounds and samplers over generated spaces with extreme parameters; libFuzzer in thorough",
+    level_text="Generated spaces, far-out states, extreme sampler parameters and predicates are checked with the library's own "
+               "satisfiesBounds plus the harness's predicate copy; exploration-level.",
+    level_note="Trusted: harness predicate/clearance functions; OMPL's RNG seed generator is re-seeded per case so a case is a pure "
+               "function of its bytes. Centres for near/Gaussian sampling are in bounds (callers' precondition).",
+    assumptions=["near / Gaussian sampling is always called with an in-bounds centre",
+                 "a valid-state sampler returning false is always acceptable"],
+)
